@@ -22,11 +22,15 @@
 (* (none / all / pay-to-pubkey and multisig only) -- and on any spent      *)
 (* outpoint.                                                               *)
 (*                                                                         *)
-(* Named deviation (known finding C39:sidechain-tweak): a filter loaded    *)
-(* with tweak 0xFFFFFFFF is treated by the code as a "side chain SPV       *)
-(* filter": MatchTxAndUpdate then looks at output program hashes only and  *)
-(* never updates.  `want` is what the property demands, `added` what the   *)
-(* code as modelled guarantees; they differ only in that mode.             *)
+(* Side-chain mode.  The protocol reserves tweak 0xFFFFFFFF for "side chain *)
+(* SPV filters": such a filter carries a list of transaction types and,   *)
+(* optionally, a bit array of program hashes.  MatchTxAndUpdate then       *)
+(* reports a transaction iff its type is listed or (the filter has a bit   *)
+(* array and) one of its outputs pays a program hash of the filter; the    *)
+(* transaction id and the inputs are not consulted and nothing is added.   *)
+(* This is the specified action MatchTxSideChain with its own rule         *)
+(* (SideChainRule); the BIP 37 properties are stated for ordinary tweaks.  *)
+(* Membership (everything added matches) holds in both modes.              *)
 (***************************************************************************)
 EXTENDS Integers, Sequences, FiniteSets, TLC, Json
 
@@ -35,15 +39,17 @@ CONSTANTS NPh,        \* program hashes 1..NPh
           MaxAdds     \* explicit additions per behaviour
 
 VARIABLES mode,       \* update mode of the loaded filter: "none" | "all" | "p2pk"
-          side,       \* TRUE: loaded with the side-chain tweak
-          added,      \* items the (modelled) code guarantees to match
-          want,       \* items the property demands to match
-          paid,       \* history: outpoints of processed outputs that paid a wanted program hash
+          side,       \* TRUE: loaded with the side-chain tweak 0xFFFFFFFF
+          bits,       \* the filter has a bit array (FALSE: zero-length filter, type list only)
+          listed,     \* transaction types listed in the filter load (side-chain mode)
+          added,      \* items in the filter: each of them must match
+          explicit,   \* history: items added by Add
+          paid,       \* history: outpoints of processed outputs that paid an item of the filter
           nops, nadds,
           log
 
-vars == <<mode, side, added, want, paid, nops, nadds, log>>
-view == <<mode, side, added, want, paid, nops, nadds>>
+vars == <<mode, side, bits, listed, added, explicit, paid, nops, nadds, log>>
+view == <<mode, side, bits, listed, added, explicit, paid, nops, nadds>>
 
 ---------------------------------------------------------------------------
 (* Items and transaction templates *)
@@ -61,6 +67,7 @@ Templates == <<
     [outs |-> <<3>>,    ins |-> <<Op(2, 1), Op(0, 2)>>],  \* T3 spends T2:1 (which paid ph1), pays ph3
     [outs |-> <<3, 3>>, ins |-> <<Op(0, 3)>>] >>          \* T4 pays ph3 twice, unrelated input
 NTx == Len(Templates)
+TxType(j) == IF j = 4 THEN "record" ELSE "transfer"
 
 Addable == {Ph(i) : i \in 1..NPh} \cup {TxId(j) : j \in 1..NTx} \cup {Op(0, i) : i \in 1..3}
               \cup {Op(1, 0), Op(2, 1)}
@@ -89,47 +96,47 @@ Why(S, j) == IF IdHit(S, j) THEN "txid" ELSE IF OutHits(S, j) # {} THEN "output"
 
 ---------------------------------------------------------------------------
 
+\* side-chain mode: type listed, or an output pays an item of the bit array
+SideMatches(S, j) == TxType(j) \in listed \/ (bits /\ OutHits(S, j) # {})
+SideWhy(S, j) == IF TxType(j) \in listed THEN "type" ELSE IF bits /\ OutHits(S, j) # {} THEN "output" ELSE "-"
+
 Init == /\ mode \in {"none", "all", "p2pk"}
         /\ side \in BOOLEAN
-        /\ added = {} /\ want = {} /\ paid = {}
+        /\ bits \in BOOLEAN /\ (~side => bits)
+        /\ listed \in {{}, {"transfer"}, {"record"}} /\ (~side => listed = {})
+        /\ added = {} /\ explicit = {} /\ paid = {}
         /\ nops = 0 /\ nadds = 0
         /\ log = <<>>
 
-Log(act, args, must, pmust, why) ==
-    log' = Append(log, [act |-> act, args |-> args, must |-> must, pmust |-> pmust, why |-> why,
-                        mode |-> mode, side |-> side, added |-> added', want |-> want'])
+Log(act, args, must, why) ==
+    log' = Append(log, [act |-> act, args |-> args, must |-> must, why |-> why,
+                        mode |-> mode, side |-> side, bits |-> bits, listed |-> listed, added |-> added'])
 
 (* Filter.Add / AddHash / AddOutPoint *)
 Add(x) ==
     /\ nops < MaxOps /\ nadds < MaxAdds
-    /\ x \notin want
+    /\ x \notin added
     /\ added' = added \cup {x}
-    /\ want' = want \cup {x}
+    /\ explicit' = explicit \cup {x}
     /\ nops' = nops + 1 /\ nadds' = nadds + 1
-    /\ UNCHANGED <<mode, side, paid>>
-    /\ Log("Add", [item |-> x], TRUE, TRUE, "-")
+    /\ UNCHANGED <<mode, side, bits, listed, paid>>
+    /\ Log("Add", [item |-> x], TRUE, "-")
 
-(* Filter.MatchTxAndUpdate, protocol semantics *)
+(* Filter.MatchTxAndUpdate with an ordinary tweak: BIP 37 *)
 MatchTx(j) ==
     /\ nops < MaxOps /\ ~side
     /\ added' = added \cup Updates(added, mode, j)
-    /\ want' = want \cup Updates(want, mode, j)
-    /\ paid' = paid \cup {Op(j, i) : i \in OutHits(want, j)}
+    /\ paid' = paid \cup {Op(j, i) : i \in OutHits(added, j)}
     /\ nops' = nops + 1
-    /\ UNCHANGED <<mode, side, nadds>>
-    /\ Log("MatchTx", [tx |-> j], Matches(added, j), Matches(want, j), Why(want, j))
+    /\ UNCHANGED <<mode, side, bits, listed, explicit, nadds>>
+    /\ Log("MatchTx", [tx |-> j], Matches(added, j), Why(added, j))
 
-(* Deviation: the side-chain tweak.  Only output program hashes are looked *)
-(* at and nothing is added.  The property still wants the protocol's       *)
-(* behaviour (want, pmust).                                                *)
+(* Filter.MatchTxAndUpdate with the side-chain tweak *)
 MatchTxSideChain(j) ==
     /\ nops < MaxOps /\ side
-    /\ added' = added
-    /\ want' = want \cup Updates(want, mode, j)
-    /\ paid' = paid \cup {Op(j, i) : i \in OutHits(want, j)}
     /\ nops' = nops + 1
-    /\ UNCHANGED <<mode, side, nadds>>
-    /\ Log("MatchTx", [tx |-> j], OutHits(added, j) # {}, Matches(want, j), Why(want, j))
+    /\ UNCHANGED <<mode, side, bits, listed, added, explicit, paid, nadds>>
+    /\ Log("MatchTx", [tx |-> j], SideMatches(added, j), SideWhy(added, j))
 
 Next == \/ \E x \in Addable : Add(x)
         \/ \E j \in 1..NTx : MatchTx(j)
@@ -140,32 +147,45 @@ Spec == Init /\ [][Next]_vars
 ---------------------------------------------------------------------------
 (* Properties *)
 
-TypeOK == /\ added \subseteq want
-          /\ nops \in 0..MaxOps
+Last == log'[Len(log')]
+Logged(j) == Len(log') = Len(log) + 1 /\ Last.act = "MatchTx" /\ Last.args.tx = j
 
-\* the code (outside the deviation) guarantees everything the property wants
-NoFalseNegative == ~side => added = want
+TypeOK == /\ nops \in 0..MaxOps
+          /\ ~side => (bits /\ listed = {})
+
+\* membership, in every mode: whatever was added is in the filter (and the
+\* driver demands Matches() of every element of `added` after every step)
+NoFalseNegative == explicit \subseteq added
 
 \* nothing ever leaves the filter
-Monotone == [][added \subseteq added' /\ want \subseteq want']_vars
+Monotone == [][added \subseteq added']_vars
 
-\* a transaction that pays to or spends from a watched item matches, and so
-\* does its id -- as an action property on the logged verdicts
+\* ordinary tweak: a transaction that pays to or spends from an item of the
+\* filter matches, and so does one whose id is in it
 WatchedMatches ==
     [][\A j \in 1..NTx :
-         (Len(log') = Len(log) + 1 /\ log'[Len(log')].act = "MatchTx" /\ log'[Len(log')].args.tx = j) =>
-            LET e == log'[Len(log')] IN
-              /\ e.pmust = (TxId(j) \in want \/ (\E i \in OutIdx(j) : OutPh(j, i) \in want)
-                                             \/ (\E o \in InSet(j) : o \in want))
-              /\ (~side => e.must = e.pmust)]_vars
+         (Logged(j) /\ ~side) =>
+              Last.must = (TxId(j) \in added \/ (\E i \in OutIdx(j) : OutPh(j, i) \in added)
+                                               \/ (\E o \in InSet(j) : o \in added))]_vars
 
-\* follow the money: once an output paying a watched program hash has been
-\* processed, a transaction spending that output matches (update mode
-\* permitting) -- stated on the history `paid`, independently of `want`
+\* ordinary tweak, follow the money: once an output paying an item of the
+\* filter has been processed, a transaction spending that output matches
+\* (update mode permitting) -- stated on the history `paid`
 SpendOfMatchedOutput ==
     [][\A j \in 1..NTx :
-         (Len(log') = Len(log) + 1 /\ log'[Len(log')].act = "MatchTx" /\ log'[Len(log')].args.tx = j) =>
-            ((\E o \in InSet(j) \cap paid : o[2] # 0 /\ Updatable(mode, o[2], o[3])) => log'[Len(log')].pmust)]_vars
+         (Logged(j) /\ ~side) =>
+            ((\E o \in InSet(j) \cap paid : o[2] # 0 /\ Updatable(mode, o[2], o[3])) => Last.must)]_vars
+
+\* side-chain tweak: a transaction of a listed type matches, a transaction
+\* paying a program hash of the bit array matches, nothing else is required,
+\* and the filter is not changed
+SideChainRule ==
+    [][\A j \in 1..NTx :
+         (Logged(j) /\ side) =>
+            /\ (TxType(j) \in listed => Last.must)
+            /\ ((bits /\ \E i \in OutIdx(j) : OutPh(j, i) \in added) => Last.must)
+            /\ (Last.must => (TxType(j) \in listed \/ \E i \in OutIdx(j) : OutPh(j, i) \in added))
+            /\ added' = added]_vars
 
 Emit == PrintT(<<"TRACE", ToJson(log')>>)
 EmitLast == nops' = MaxOps => PrintT(<<"TRACE", ToJson(log')>>)
